@@ -237,7 +237,7 @@ func c39() {
 	run.Bounds["limit"] = "0..n+1"
 	run.Bounds["percent"] = xs
 	run.Bounds["seeds"] = "0..63"
-	run.Rule = "complete product: candidates 1..N x stake vectors x previous-set subsets x limits x percentages x seeds, each call made twice with the Go map filled in opposite orders; distinct = distinct (layout, set of selections over the seeds)"
+	run.Rule = "complete product: candidates 1..N x stake vectors x previous-set subsets x limits x percentages x seeds, for seeds 0..7 each call is made twice with the Go map filled in opposite orders; distinct = distinct (layout, set of selections over the seeds)"
 
 	t0 := time.Now()
 	var layouts []c39Layout
@@ -340,8 +340,12 @@ func c39CheckLayout(run *ev.Run, li int, l c39Layout, nSeeds int, report func(in
 	outcomes := map[int]bool{}
 	for seed := int64(0); seed < int64(nSeeds); seed++ {
 		ret, sel, perr := c39Run(l, seed, false)
-		ret2, sel2, perr2 := c39Run(l, seed, true)
-		run.Add(0, 1, 2)
+		ret2, sel2, perr2 := ret, sel, perr
+		if seed < 8 { // identical inputs, Go map filled in the opposite order
+			ret2, sel2, perr2 = c39Run(l, seed, true)
+			run.Add(0, 0, 1)
+		}
+		run.Add(0, 1, 1)
 		if perr != nil || perr2 != nil {
 			report(li, "C39:reduce:panic", fmt.Sprintf("%v seed %d: panic %v %v", l, seed, perr, perr2), replay(seed))
 			return
